@@ -495,7 +495,7 @@ def check_C17(tier, seed, t0):
     own = ["LobFinite", "ReturnsKEigenvalues", "EigenvectorsShapeNbyK", "ResidualsShapeNbyK", "EigenvaluesAscending", "SmallestEigenvalues", "BOrthonormal",
            "ResidualsAreAXminusBXL", "ResidualNormsBelowTol", "LobpcgThrew", "UnknownRow", "LobIterConsecutive", "LobActiveBlockInRange",
            "LobRayleighRitzOrder", "LobCoefficientShape"]
-    return aux_flow("C17", tier, seed, t0, "lobpcg", n_of(tier, 30, 150), own, [("LOBPCG.tla", "LOBPCG.cfg", 4)], [("LOBPCG.tla", "LOBPCG_neg.cfg", 2)], [
+    return aux_flow("C17", tier, seed, t0, "lobpcg", n_of(tier, 30, 150), own, [("LOBPCG.tla", "LOBPCG.cfg", 4)], [("LOBPCG.tla", "LOBPCG_neg.cfg", 2), ("LOBPCG.tla", "LOBPCG_neg_info.cfg", 2), ("LOBPCG.tla", "LOBPCG_neg_reorth.cfg", 2)], [
         "design model: shape algebra for all n <= 14, 5k < n, block-size sequences (negative control: eigenvectors() returning the Ritz coefficient matrix)",
         "runs: sparse symmetric (also indefinite) A, tridiagonal SPD B, with/without B and a diagonal preconditioner, k in 2..3; clauses are judged only when info() reports success",
         "block size k = 1 is a recorded finding (the inner generalized solver rejects ncv <= nev)"])
